@@ -29,36 +29,78 @@ def arg_rooted_switches(f):
     return out
 
 
+def _arm_helper(call):
+    """Inline the dispatcher's arms (helpers that still receive the operator)
+    and small utilities, but keep comparison helpers g(lhs, rhs) as calls:
+    their acceptance tables are read separately (delegated tables)."""
+    g = call.fn.prog.fns.get(call.res)
+    if g is None:
+        return False
+    ptys = [t.replace("&", "").replace("mut ", "").strip() for t in g.locals[1:g.arg_count + 1]]
+    if ptys.count(VALUE) >= 2 and BINOP not in ptys:
+        return False
+    return True
+
+
 def find_operator_fn(prog):
     """The function that switches on one BinaryOp parameter and two Value
     parameters (anchor by shape, not by name)."""
+    memo = getattr(prog, "_operator_fn", None)
+    if memo is not None:
+        return memo
     cands = []
-    for f in prog.hand_fns():
-        if f.is_closure or f.from_expansion:
-            continue
+
+    def shape(f):
         sw = arg_rooted_switches(f)
         ops = [cp for cp, e in sw.items() if e == BINOP]
         vals = sorted(cp for cp, e in sw.items() if e == VALUE and len(cp) == 2)
         if len(ops) == 1 and len(vals) == 2:
-            cands.append((f, ops[0], vals[0], vals[1]))
+            return (f, ops[0], vals[0], vals[1])
+        return None
+    for f in prog.hand_fns():
+        if f.is_closure or f.from_expansion:
+            continue
+        s = shape(f)
+        if s:
+            cands.append(s)
+    def n_ops(c):
+        f = c[0]
+        seen = set()
+        for bb in range(len(f.blocks)):
+            if f.is_cleanup(bb) or f.term(bb)["k"] != "switch":
+                continue
+            info = f.switch_info(bb)
+            if info and info["kind"] == "discr" and info["enum"] == BINOP:
+                seen |= {n for n, _ in info["cases"]}
+        return len(seen)
+    all_ops = len(prog.enum_variant_names(BINOP))
+    if not cands or max(n_ops(c) for c in cands) < all_ops:
+        # the shape may be spread over private helpers (a dispatcher on the
+        # operator whose arms live in their own functions): look at the
+        # inlined view of every function that takes an operator and two values
+        import inline
+        for f in prog.hand_fns():
+            if f.is_closure or f.from_expansion:
+                continue
+            ptys = f.locals[1:f.arg_count + 1]
+            if sum(1 for t in ptys if t.replace("&", "").strip() == BINOP) != 1 \
+                    or sum(1 for t in ptys if t.replace("&", "").strip() == VALUE) != 2:
+                continue
+            v = inline.view(prog, f, pick=_arm_helper)
+            if v is f:
+                continue
+            s = shape(v)
+            if s:
+                cands.append(s)
     # the operator function *produces a value*: its result type carries a
     # Value (helpers that merely inspect an operator and two operands do not)
     prod = [c for c in cands if c[0].locals and VALUE in c[0].locals[0]]
     if prod:
         cands = prod
     if len(cands) > 1:
-        def n_ops(c):
-            f = c[0]
-            seen = set()
-            for bb in range(len(f.blocks)):
-                if f.is_cleanup(bb) or f.term(bb)["k"] != "switch":
-                    continue
-                info = f.switch_info(bb)
-                if info and info["kind"] == "discr" and info["enum"] == BINOP:
-                    seen |= {n for n, _ in info["cases"]}
-            return len(seen)
         best = max(n_ops(c) for c in cands)
         cands = [c for c in cands if n_ops(c) == best]
+    prog._operator_fn = cands
     return cands
 
 
@@ -153,15 +195,15 @@ TRANSPORT = ("std::ops::Try::branch", "std::hint::must_use",
              "std::ops::FromResidual::from_residual")
 
 
-def forward_users(f, call):
-    """Calls that receive (a projection of) the value returned by `call`,
-    following moves/copies through locals (flow-insensitive, also through
-    locals assigned on several paths) and the `?`/context transport calls."""
-    tainted = set()
-    if call.dst is not None:
+def forward_taint(f, call=None, seeds=()):
+    """Locals that may hold (a projection of) the value returned by `call`
+    (or held by `seeds`), following moves/copies through locals
+    (flow-insensitive, also through locals assigned on several paths) and the
+    `?`/context transport calls."""
+    tainted = set(seeds)
+    if call is not None and call.dst is not None:
         tainted.add(call.dst[0])
     changed = True
-    transport = []
     while changed:
         changed = False
         for bb in range(len(f.blocks)):
@@ -186,6 +228,12 @@ def forward_users(f, call):
                     and mir.is_place_operand(d.args[0]) and mir.op_place(d.args[0])[0] in tainted:
                 tainted.add(d.dst[0])
                 changed = True
+    return tainted
+
+
+def forward_users(f, call):
+    """Calls that receive (a projection of) the value returned by `call`."""
+    tainted = forward_taint(f, call)
     users = []
     for d in f.calls():
         dn = d.declared or ""
